@@ -167,6 +167,7 @@ def draw_payload_edit(draw, mod, tname, depth):
             kinds += ["m_label"] * 2
         if depth < 2:
             kinds += ["embedded"] * 4
+        kinds += ["m_project_whole"]
         users = user_value_targets(mod) if depth == 0 else []
         if users:
             kinds += ["m_user"] * 3
@@ -177,6 +178,9 @@ def draw_payload_edit(draw, mod, tname, depth):
             i, alias, tmi, tname, c = draw(st.sampled_from(users))
             how = draw(st.sampled_from(["direct", "alias"])) if alias else "direct"
             return ["m_user", i, alias if how == "alias" else None, draw(vs.edge_int(c.min, c.max)), tmi, c.name, c.min]
+        if k == "m_project_whole":
+            # the embedded project is replaced by another Project object holding the same content (its own clone)
+            return ["m_project_whole"]
         if k == "m_count":
             return ["m_count", draw(st.one_of(st.sampled_from([0, 1, 27, 96]), st.integers(0, 96)))]
         if k == "m_map":
@@ -419,6 +423,8 @@ def apply_module_edit(mod, e):
             mod.effect = Synth(build.make_module(e[2]))
         elif s == "effect":
             apply_module_edit(mod.effect.module, e[2:])
+        elif s == "m_project_whole":
+            mod.project = mod.project.clone()
         elif s == "m_user":
             setattr(mod, e[3] or "user_defined_%d" % (e[2] + 1), e[4])
         elif s == "m_count":
@@ -565,6 +571,8 @@ def module_paths(mod, e, base):
         return pb + "/effect", NOCHECK, []
     if s == "effect":
         return module_paths(mod.effect.module, e[2:], pb + "/effect/module")
+    if s == "m_project_whole":
+        return pb + "/project", NOCHECK, []
     if s == "m_user":
         raw = e[4] - e[7] if e[7] < 0 else e[4]
         return "%s/stored_values/%d" % (pb, e[2]), raw, ["%s/project/modules/%d/controllers/%s" % (pb, e[5], e[6])]
